@@ -116,7 +116,7 @@ class StubQueue:
         raise PyRaise(make_exc(ex.interp, "AttributeError", name))
 
 
-def parallel(run, it):
+def parallel(run, it, prop="C14"):
     run.function("mici.samplers._sample_chains_parallel")
     run.function("mici.samplers._sample_chains_worker")
     tag = P + "_sample_chains_parallel"
@@ -126,6 +126,7 @@ def parallel(run, it):
     def h(ctx):
         perm = list(perms[ctx.choose(len(perms), "worker-pickup-order")])
         n_proc = ctx.choose(2, "n_process") + 2
+        interrupt_chain = (ctx.choose(NCH + 1, "interrupted-chain") - 1) if prop == "C15" else -1
         mod = it.module(MOD)
         ex = Exec(it, ctx, mod, mod.env, "harness")
         empty_cls = it.builtins["Exception"]
@@ -190,6 +191,8 @@ def parallel(run, it):
             g["sampled"].append(dict(chain=c, init=kw["init_state"], rng_stream=kw["rng"].bit_generator.state, traces=kw["chain_traces"], common=kw.get("transitions")))
             kw["rng"].draw(5)  # the chain consumes random numbers: the *worker's copy* of the generator advances
             _, n_iter, job, q = kw["chain_iterator"]
+            if c == interrupt_chain:
+                return (Opaque(f"final<{c}>"), {}, Obj(ex_.interp.builtins["KeyboardInterrupt"], {"args": ()}))
             q.items.append((job, n_iter, {}))  # progress message of the last iteration
             return (Opaque(f"final<{c}>"), {}, None)
         it.call_contracts["_sample_chain"] = Native(sample_chain, "_sample_chain")
@@ -231,6 +234,17 @@ def parallel(run, it):
             for k in ("_ignore_sigint_manager", "_pool_context_manager", "ExitStack", "_ProxySequenceProgressBar", "THREADPOOLCTL_AVAILABLE",
                       "MULTIPROCESS_AVAILABLE", "PicklingError"):
                 it.overrides.pop((MOD, k), None)
+        if prop == "C15":
+            sampled = sorted(s_["chain"] for s_ in g["sampled"])
+            got = [getattr(s_, "_name", None) for s_ in states]
+            if interrupt_chain >= 0:
+                oki = isinstance(exc, Obj) and exc.cls.name == "KeyboardInterrupt"
+                ctx.run.ob(tag + "/worker-interrupt-is-reported-to-the-parent", core.DISCHARGED if oki else core.FAILED, "pyvc", detail="" if oki else str(exc))
+            okr = got == [f"final<{c}>" for c in sampled]
+            ctx.run.ob(tag + "/outputs-of-every-sampled-chain-are-returned-in-chain-order", core.DISCHARGED if okr else core.FAILED, "pyvc",
+                       detail="" if okr else f"chains sampled {sampled} (chain {interrupt_chain} interrupted, pickup order {perm}) but returned states {got}",
+                       text="under A14: the outputs of every chain a worker sampled -- including the interrupted one -- come back, sorted by chain index")
+            return
         ok1 = sorted(s["chain"] for s in g["sampled"]) == list(range(NCH))
         ctx.run.ob(tag + "/every-chain-sampled-exactly-once", core.DISCHARGED if ok1 else core.FAILED, "pyvc", detail="" if ok1 else str(g["sampled"]))
         ok2 = all(s["init"] == f"init{s['chain']}" and s["rng_stream"][0] == f"stream{s['chain']}" and s["traces"] == f"traces{s['chain']}" for s in g["sampled"])
@@ -249,6 +263,7 @@ def parallel(run, it):
         okp = all(ci.update_calls for ci in iters)
         ctx.run.ob(tag + "/progress-messages-routed-to-own-bar", core.DISCHARGED if okp else core.FAILED, "pyvc")
     it.explore(h, "_sample_chains_parallel", roots=[[i, j] for i in range(len(perms)) for j in range(2)])
+
 
 
 def base_generator_use(run, it):
@@ -333,5 +348,9 @@ def run(run_, tier):
     parallel(run_, it)
     base_generator_use(run_, it)
     unseeded_sources(run_)
+    # chains share the transition / integrator objects of their process: adapter initialisation must not read what another chain left there
+    from . import c17
+    it17 = c17.make_interp(run_)
+    c17.dual_averaging(run_, it17, only_search=True)
     run_.extraction_drops.extend(sorted(it.dropped))
     run_.notes.append(f"paths explored: {it.paths}")
